@@ -180,6 +180,42 @@ def check_single_pass_expansion(ctx, mods) -> None:
     ctx.floor(rule, n, 2, "single-pass substitution calls")
 
 
+def check_rekeying(ctx, mods) -> None:
+    RID = "C15.R8-key-normalisation-in-sorted-order"
+    NORMALISERS = ("lower", "upper", "strip", "casefold", "title")
+    n = 0
+    for m in mods:
+        for q, fn in m.functions.items():
+            for lp in source.walk_own(fn):
+                if not (isinstance(lp, ast.For) and isinstance(lp.target, ast.Name)):
+                    continue
+                k = lp.target.id
+                # D[<normaliser>(k)] = D[k] in the body, for the mapping D whose keys are iterated
+                hits = []
+                for st in ast.walk(lp):
+                    if isinstance(st, ast.Assign) and len(st.targets) == 1 and isinstance(st.targets[0], ast.Subscript) \
+                            and isinstance(st.value, ast.Subscript) and source.src(st.targets[0].value) == source.src(st.value.value) \
+                            and isinstance(st.value.slice, ast.Name) and st.value.slice.id == k:
+                        key = st.targets[0].slice
+                        if isinstance(key, ast.Call) and isinstance(key.func, ast.Attribute) and key.func.attr in NORMALISERS \
+                                and isinstance(key.func.value, ast.Name) and key.func.value.id == k:
+                            hits.append((st, source.src(st.value.value)))
+                for (st, dname) in hits:
+                    if dname not in source.src(lp.iter):
+                        continue
+                    n += 1
+                    it = lp.iter
+                    ok = isinstance(it, ast.Call) and call_name(it) == "sorted" and not any(kw.arg == "key" for kw in it.keywords)
+                    ctx.analysed(fn)
+                    ctx.ob(RID, lp, ok,
+                           "%s re-keys %s under %s while iterating its keys in sorted order" % (q, dname, short(st.targets[0].slice, 20)) if ok else
+                           "%s re-keys %s under %s while iterating %s: when two keys differ only by the normalisation (MyEnv / MYENV) the one "
+                           "the document lists last overwrites the other - two equal documents that list the keys in a different order "
+                           "resolve the name differently" % (q, dname, short(st.targets[0].slice, 20), short(it, 40)),
+                           construct="%s: for <key> in sorted(%s) <- %s[%s] = %s[<key>]" % (q, dname, dname, short(st.targets[0].slice, 20), dname))
+    ctx.floor(RID, n, 1, "loops that re-key a mapping under a normalised key")
+
+
 def list_order_effect(e: ast.AST) -> Optional[str]:
     """What an expression does to the order / multiplicity of the list it is built from, as far as 'the last one wins' is
     concerned.  None = harmless (copies, 'x or []', an even number of reversals, de-duplication that keeps the LAST occurrence);
@@ -241,6 +277,9 @@ def run(ctx) -> None:
     ctx.rule("C15.R7-identity-keys-are-canonical", "a value that identifies a mapping (it is used as a dictionary key / looked up with 'in') and "
              "is built by iterating that mapping is built in sorted order (or as a frozenset): equal documents that list the keys in a "
              "different order must get the same identity")
+    ctx.rule("C15.R8-key-normalisation-in-sorted-order", "a loop that re-keys a mapping in place under a normalised key (D[k.lower()] = D[k]; del D[k]) "
+             "iterates the keys in sorted order: when two keys collide after normalisation the survivor must not depend on the order in "
+             "which the document lists them")
     ctx.rule("C15.R5-single-pass-expansion-not-loop-carried", "a single-pass substitution (Template.safe_substitute wrappers such as "
              "expand_vars) applied while iterating a mapping never uses as its context a mapping that is stored into in the same "
              "loop: otherwise values seen by later keys depend on the key order of the (equal) input document")
@@ -281,6 +320,7 @@ def run(ctx) -> None:
                            construct="%s %s" % (h.kind, short(h.node, 100)))
     ctx.extra["functions_scanned"] = n_funcs
     check_single_pass_expansion(ctx, mods)
+    check_rekeying(ctx, mods)
     ctx.floor("C15.R1-order-taint", n_hits, 10, "order-taint hits (benign + violating) - fewer means the detector lost its sources")
 
     # ---------------- R2 -------------------------------------------------------------------------------
